@@ -84,6 +84,34 @@ def step (σ : CS) : Act → CS
 
 def run (σ : CS) (as : List Act) : CS := as.foldl step σ
 
+/-! ## What a condition decides (`checkTaskCondition` of the runner, `checkStageCondition` of the scheduler)
+
+Both conditions are commands run under a context that `Cancel` cancels (after the `fix:` commits e21a43d and
+d6d3549; before them they ran under no context at all, and a cancellation waited for them). How the command ended
+and whether the context is cancelled by then decide what happens to the task / stage. -/
+
+inductive CondEnd
+  | zero            -- exit status 0
+  | nonzero         -- another exit status (also what a program answers an interrupt with, if it traps it)
+  | killed          -- no exit status: killed, could not be started
+deriving DecidableEq, Repr
+
+inductive CondVerdict
+  | proceed | skipped | error
+deriving DecidableEq, Repr
+
+/-- the context is looked at first: an interrupted evaluation is no evaluation -/
+def condVerdict (cancelled : Bool) : CondEnd → CondVerdict
+  | .zero => .proceed          -- the commands that follow find the cancelled context themselves (`startCmd`)
+  | .nonzero => if cancelled then .error else .skipped
+  | .killed => .error
+
+/-- the seeded variant (round 14) and the half-fix it stands for: the exit status is looked at first -/
+def condVerdictStatusFirst (_cancelled : Bool) : CondEnd → CondVerdict
+  | .zero => .proceed
+  | .nonzero => .skipped
+  | .killed => .error
+
 /-! ## The pre-fix protocol -/
 namespace Old
 
